@@ -23,6 +23,18 @@ Definition rep (a : blk) (l : list Z) : Prop :=
 Lemma rep_nil a : rep a [].
 Proof. intros j H. rewrite len_nil in H. lia. Qed.
 
+
+(* case analysis of the "inside the range" tests of the loop lemmas *)
+Ltac range_solve :=
+  repeat match goal with
+  | |- context [N.leb ?x ?y] => destruct (N.leb_spec x y)
+  | |- context [N.ltb ?x ?y] => destruct (N.ltb_spec x y)
+  end; cbn [andb];
+  first [ reflexivity
+        | rewrite !gso by lia; reflexivity
+        | match goal with |- get (set _ ?i _) ?j = _ => replace j with i by lia; apply gss end
+        | lia ].
+
 (* ---- primitives ------------------------------------------------------------------------- *)
 Lemma rd_live a i v k : get a i = CLive v -> rd a i k = (v, k).
 Proof. intro H. unfold rd. now rewrite H. Qed.
@@ -44,19 +56,10 @@ Lemma construct_range v : forall n i a k a' k',
 Proof.
   induction n as [|n IH]; intros i a k a' k' H; cbn [iter_up] in H.
   - inversion H; subst. split; [|apply cnt_rel_refl].
-    intro j. destruct (i <=? j) eqn:E1; destruct (j <? i + N.of_nat 0) eqn:E2; cbn [andb]; try reflexivity.
-    apply N.leb_le in E1. apply N.ltb_lt in E2. lia.
+    intro j. range_solve.
   - cbn [construct_step] in H. unfold construct in H. apply IH in H. destruct H as [Hg [Hl Hb]].
     split.
-    + intro j. rewrite Hg.
-      destruct (N.leb_spec (i + 1) j); destruct (N.ltb_spec j (i + 1 + N.of_nat n));
-        destruct (N.leb_spec i j); destruct (N.ltb_spec j (i + N.of_nat (S n))); cbn [andb];
-        try reflexivity; try lia.
-      * rewrite gso by lia. reflexivity.
-      * assert (j = i) as -> by lia. apply gss.
-      * assert (j = i) as -> by lia. apply gss.
-      * rewrite gso by lia. reflexivity.
-      * rewrite gso by lia. reflexivity.
+    + intro j. rewrite Hg. range_solve.
     + split; cbn [inc_live live bad] in *; [lia | exact Hb].
 Qed.
 
@@ -69,20 +72,11 @@ Lemma destroy_range : forall n i a k a' k',
 Proof.
   induction n as [|n IH]; intros i a k a' k' Hl H; cbn [iter_up] in H.
   - inversion H; subst. split; [|apply cnt_rel_refl].
-    intro j. destruct (N.leb_spec i j); destruct (N.ltb_spec j (i + N.of_nat 0)); cbn [andb];
-      try reflexivity; lia.
+    intro j. range_solve.
   - cbn [destroy_step] in H. destruct (Hl i) as [v Hv]; [lia|].
     rewrite (destroy_live _ _ _ _ Hv) in H. apply IH in H.
     + destruct H as [Hg [Hli Hb]]. split.
-      * intro j. rewrite Hg.
-        destruct (N.leb_spec (i + 1) j); destruct (N.ltb_spec j (i + 1 + N.of_nat n));
-          destruct (N.leb_spec i j); destruct (N.ltb_spec j (i + N.of_nat (S n))); cbn [andb];
-          try reflexivity; try lia.
-        -- rewrite gso by lia. reflexivity.
-        -- assert (j = i) as -> by lia. apply gss.
-        -- assert (j = i) as -> by lia. apply gss.
-        -- rewrite gso by lia. reflexivity.
-        -- rewrite gso by lia. reflexivity.
+      * intro j. rewrite Hg. range_solve.
       * split; cbn [dec_live live bad] in *; [lia | exact Hb].
     + intros j Hj. rewrite gso by lia. apply Hl. lia.
 Qed.
@@ -96,23 +90,14 @@ Lemma move_destroy_range (g : N -> Z) : forall n i src dst k src' dst' k',
 Proof.
   induction n as [|n IH]; intros i src dst k src' dst' k' Hl H; cbn [iter_up] in H.
   - inversion H; subst. split; [|apply cnt_rel_refl].
-    intro j. destruct (N.leb_spec i j); destruct (N.ltb_spec j (i + N.of_nat 0)); cbn [andb];
-      try reflexivity; lia.
+    intro j. range_solve.
   - cbn [move_destroy_step] in H.
     rewrite (take_live _ _ _ _ (Hl i ltac:(lia))) in H.
     unfold construct in H.
     rewrite (destroy_live _ _ movedv) in H by apply gss.
     apply IH in H.
     + destruct H as [Hg [Hli Hb]]. split.
-      * intro j. rewrite Hg.
-        destruct (N.leb_spec (i + 1) j); destruct (N.ltb_spec j (i + 1 + N.of_nat n));
-          destruct (N.leb_spec i j); destruct (N.ltb_spec j (i + N.of_nat (S n))); cbn [andb];
-          try reflexivity; try lia.
-        -- rewrite gso by lia. reflexivity.
-        -- assert (j = i) as -> by lia. apply gss.
-        -- assert (j = i) as -> by lia. apply gss.
-        -- rewrite gso by lia. reflexivity.
-        -- rewrite gso by lia. reflexivity.
+      * intro j. rewrite Hg. range_solve.
       * split; cbn [dec_live inc_live live bad] in *; [lia | exact Hb].
     + intros j Hj. rewrite !gso by lia. apply Hl. lia.
 Qed.
@@ -126,21 +111,12 @@ Lemma copy_range (g : N -> Z) (src : blk) : forall n i a k a' k',
 Proof.
   induction n as [|n IH]; intros i a k a' k' Hl H; cbn [iter_up] in H.
   - inversion H; subst. split; [|apply cnt_rel_refl].
-    intro j. destruct (N.leb_spec i j); destruct (N.ltb_spec j (i + N.of_nat 0)); cbn [andb];
-      try reflexivity; lia.
+    intro j. range_solve.
   - cbn [copy_ctor_step] in H.
     rewrite (rd_live _ _ _ _ (Hl i ltac:(lia))) in H. unfold construct in H.
     apply IH in H.
     + destruct H as [Hg [Hli Hb]]. split.
-      * intro j. rewrite Hg.
-        destruct (N.leb_spec (i + 1) j); destruct (N.ltb_spec j (i + 1 + N.of_nat n));
-          destruct (N.leb_spec i j); destruct (N.ltb_spec j (i + N.of_nat (S n))); cbn [andb];
-          try reflexivity; try lia.
-        -- rewrite gso by lia. reflexivity.
-        -- assert (j = i) as -> by lia. apply gss.
-        -- assert (j = i) as -> by lia. apply gss.
-        -- rewrite gso by lia. reflexivity.
-        -- rewrite gso by lia. reflexivity.
+      * intro j. rewrite Hg. range_solve.
       * split; cbn [inc_live live bad] in *; [lia | exact Hb].
     + intros j Hj. apply Hl. lia.
 Qed.
@@ -224,12 +200,11 @@ Proof.
   - rewrite len_nil. destruct (N.leb_spec i j); destruct (N.ltb_spec j (i + 0)); cbn [andb];
       try reflexivity; lia.
   - rewrite IH. rewrite len_cons.
-    destruct (N.leb_spec (i + 1) j); destruct (N.ltb_spec j (i + 1 + len l));
-      destruct (N.leb_spec i j); destruct (N.ltb_spec j (i + (len l + 1))); cbn [andb];
-      try reflexivity; try lia.
-    + replace (N.to_nat (j - i)) with (S (N.to_nat (j - (i + 1)))) by lia. reflexivity.
-    + assert (j = i) as -> by lia. rewrite gss. replace (N.to_nat (i - i)) with 0%nat by lia. reflexivity.
-    + assert (j = i) as -> by lia. rewrite gss. replace (N.to_nat (i - i)) with 0%nat by lia. reflexivity.
-    + rewrite gso by lia. reflexivity.
-    + rewrite gso by lia. reflexivity.
+    destruct (N.eq_dec j i) as [->|Hne].
+    + rewrite gss. replace (N.to_nat (i - i)) with 0%nat by lia. range_solve.
+    + rewrite gso by exact Hne.
+      destruct (N.leb_spec (i + 1) j); destruct (N.ltb_spec j (i + 1 + len l));
+        destruct (N.leb_spec i j); destruct (N.ltb_spec j (i + (len l + 1))); cbn [andb];
+        try reflexivity; try lia.
+      replace (N.to_nat (j - i)) with (S (N.to_nat (j - (i + 1)))) by lia. reflexivity.
 Qed.
